@@ -148,6 +148,39 @@ def c_resize(eng, st, fr, f, args, site):
     return [(st, UNIT)]
 
 
+@contract(r"^(std|core)::iter::repeat$|^(std|core)::iter::sources::repeat::repeat$")
+def c_iter_repeat(eng, st, fr, f, args, site):
+    """iter::repeat(v): an endless iterator of one value (made finite by take)."""
+    rt = ret_ty(eng, site)
+    return [(st, Cont("iter:repeat", "rep#%d" % eng._hv(), Lin.const(0), args[0], None, rt))]
+
+
+@contract(r"^(std|core)::iter::Iterator::take$|^<(std|core)::iter::Repeat<.*> as (std|core)::iter::Iterator>::take$")
+def c_iter_take(eng, st, fr, f, args, site):
+    it = force(eng, st, args[0])
+    n = args[1]
+    if isinstance(it, Cont) and it.kind == "iter:repeat" and isinstance(n, Int):
+        rt = ret_ty(eng, site)
+        return [(st, Cont("iter:fill", "fillit#%d" % eng._hv(), n.lin, it.elem, None, rt))]
+    return None
+
+
+@contract(r"^<bytes::BytesMut as (std|core)::iter::Extend<u8>>::extend$|^(std|core)::iter::Extend::extend$|^<(std|alloc)::vec::Vec<T, A> as (std|core)::iter::Extend<T>>::extend$")
+def c_extend_fill(eng, st, fr, f, args, site):
+    """extend(repeat(v).take(n)): appends n copies of v (same as resize growing by n)."""
+    if len(args) < 2 or not isinstance(args[0], Ref):
+        return None
+    it = force(eng, st, args[1])
+    if not (isinstance(it, Cont) and it.kind == "iter:fill"):
+        return None
+    c = force(eng, st, deref(eng, st, args[0]))
+    if not isinstance(c, Cont):
+        return None
+    segs = None if c.segs is None else c.segs + (("fill", it.elem, it.len),)
+    eng.M.write_path(st, args[0].loc, args[0].path, new_cont(eng, c.kind, c.len.add(it.len), c.elem, segs, c.ty, hint="buf"))
+    return [(st, UNIT)]
+
+
 @contract(r"^bytes::BytesMut::(to_vec|freeze)$")
 def c_bm_to_vec(eng, st, fr, f, args, site):
     return None
